@@ -132,11 +132,11 @@ GlobalStreamEffectDocumented ==
           LET s == hist'[Len(hist')]
           IN g' = IF s.e \in {"isv", "jfa"} THEN Adv(Reseed(s.r), NUvd(s.e)) ELSE g]_vars
 
-\* ---------------- export of complete histories (M2)
+\* ---------------- export of the complete histories that end with a fit (M2)
 Compact(s) == IF s.a = "Fit"
               THEN <<"Fit", s.e, s.c, s.d, s.o, s.p, s.r, s.res.toks, s.res.o, s.res.p, s.ga.seed, s.ga.pos>>
               ELSE <<s.a, s.r, s.ga.seed, s.ga.pos>>
-Export == IF Len(hist) = MaxLen /\ FitIdx # {}
+Export == IF Len(hist) = MaxLen /\ hist[MaxLen].a = "Fit"
           THEN PrintT(ToJson([h |-> [i \in 1..Len(hist) |-> Compact(hist[i])]]))
           ELSE TRUE
 =============================================================================
